@@ -551,7 +551,10 @@ fn find_mapped_pat_id_from_token(
 ) -> Option<hir::PatId> {
     let mut current = token.parent();
     while let Some(node) = current {
-        if cst::nodes::Pattern::can_cast(node.kind()) {
+        // a shorthand field `Point { x }` binds `x` at the field node, which is not a pattern node
+        if cst::nodes::Pattern::can_cast(node.kind())
+            || cst::nodes::StructPatternField::can_cast(node.kind())
+        {
             let ptr = MySyntaxNodePtr::new(&node);
             if let Some(id) = index.pat_id(&ptr) {
                 return Some(id);
